@@ -10,7 +10,7 @@ import random
 
 from vmon import bank, core, inventory, structural
 
-SEQUENCES = {'quick': 24, 'thorough': 1200}
+SEQUENCES = {'quick': 24, 'thorough': 400}
 OPS = {'quick': 40, 'thorough': 80}
 
 
@@ -22,10 +22,14 @@ class Recorder(object):  # pylint: disable=too-few-public-methods
 
 
 _SIZE_MEMO = {}
+_CONSTANT_ITEM_SIZE = ('VectorParamNumeric', 'OpaqueParam', 'VectorParamEnumCodeNumeric')
 
 
 def item_sizes(param, items):
     """Sum of the wire sizes; per-object memo (pool items are never mutated by the harness)."""
+    if type(param).__name__ in _CONSTANT_ITEM_SIZE:
+        # get_item_size() of these parameter classes ignores the item
+        return len(items) * param.get_item_size(items[0]) if items else 0
     total = 0
     for item in items:
         key = (id(param.__class__), id(item)) if hasattr(item, '__dict__') else None
